@@ -80,6 +80,14 @@ def leaves(v, depth=0):
       yield from leaves(x, depth + 1)
 
 
+class _BaseExit(BaseException):
+  pass
+
+
+def _base_exit():
+  raise _BaseExit()
+
+
 def check_case(case):
   labels = set()
   cshape = {'pos': [], 'dflt': list(PARAMS), 'varargs': False, 'kwonly': [], 'kwdflt': [],
@@ -97,6 +105,8 @@ def check_case(case):
     cshape['pos'], cshape['posonly_pos'] = ['lead'], 1
     labels.add('consumer-with-positional-only-first-parameter')
   cons = G.build(cshape, gin)
+  if case.get('base_exit'):
+    gin.external_configurable(_base_exit, 'c04base_exit', module='c04x')
   prods = {}
   gen_prod = case.get('generator_producer')
 
@@ -234,6 +244,19 @@ def check_case(case):
   with contextlib.ExitStack() as es:
     if ambient:
       es.enter_context(gin.config_scope('/'.join(ambient)))
+    if case.get('base_exit'):
+      # a scoped configurable (the wrapper scoped references use) left by something that is not an
+      # Exception, which the caller handles: the scope it ran under is left again, so what follows
+      # runs under the scope active here
+      for _ in range(2):
+        try:
+          gin.get_configurable('leaked/c04x.c04base_exit')()
+        except _BaseExit:
+          pass
+      require(gin.current_scope() == list(ambient), 'scope-left-behind-by-scoped-configurable',
+              lambda: f'after a scoped configurable raised a BaseException: '
+                      f'{gin.current_scope()} (ambient {ambient})')
+      labels.add('scoped-configurable-left-by-baseexception')
     cfg0, stored0 = gin.config_str(), stored_repr()
     mutated_before = False
     for ci, call in enumerate(case['calls']):
@@ -386,6 +409,7 @@ def strategy(draw):
       'consumer_kind': draw(st.sampled_from(['function', 'function', 'class_init'])),
       'consumer_api': draw(st.sampled_from(['configurable', 'register', 'external'])),
       'posonly_lead': draw(st.integers(0, 3)) == 0,
+      'base_exit': draw(st.integers(0, 3)) == 0,
       'consumer_bases': draw(st.sampled_from([0, 0, 1, 2])),
       'producer_apis': [draw(st.sampled_from(['configurable', 'register', 'external']))
                         for _ in PRODUCERS],
